@@ -1,3 +1,5 @@
+import TantivyModel.Proofs.SSTable.SearchLim
+import TantivyModel.Proofs.SSTable.BestSlope
 import TantivyModel.Proofs.SSTable.Separators
 import TantivyModel.Proofs.SSTable.StoreLocate
 import TantivyModel.Proofs.SSTable.StoreFile
@@ -952,6 +954,83 @@ theorem C15_merged_dictionary {V} (comb : List V → V) (ms : List (Assoc V))
 
 example : (build 0 (kwayMerge List.sum [[(([1] : Key), 1), ([3], 3)], [([2], 20), ([3], 30)]])).get [3] = some 33 ∧
     (build 0 (kwayMerge List.sum [[(([1] : Key), 1), ([3], 3)], [([2], 20), ([3], 30)]])).termOrd [2] = some 1 := by decide
+
+/-! ## round 2: `find_best_slope` mirrored -/
+
+/-- `find_best_slope` (mirrored: the "lowest"/"highest" points by integer slope, the rounded slope
+through them, `compute_num_bits(max deviation) + 1`): whatever slope the heuristic lands on, the
+width it returns is at least 1, at most 57 and covers every deviation — as long as the largest
+deviation is below the 56-bit cut-off of `compute_num_bits` -/
+theorem C15_find_best_slope_fits (els : List (Nat × Nat))
+    (h56 : numBits (maxDeviation (findBestSlope els).1 els) ≤ 56) :
+    1 ≤ (findBestSlope els).2 ∧ (findBestSlope els).2 ≤ 57 ∧
+    ∀ e ∈ els, deviation (findBestSlope els).1 e.1 e.2 < 2 ^ ((findBestSlope els).2 - 1) :=
+  (findBestSlope_fits els h56).2
+
+/-- a store block exactly as `flush_block` writes it — slopes and widths chosen by
+`find_best_slope`, fields bit-packed — returns every address through `get`; no hypothesis on
+slopes or widths is left, only monotone data and deviations below the cut-off -/
+theorem C15_written_store_block_get (ref : BlockAddr) (more : List BlockAddr) (lastStop : Nat)
+    (h : WriterGroupOk ref more lastStop) (rest : List UInt8) (i : Nat) (hi : i ≤ more.length) :
+    (groupMeta (mkGroup ref more lastStop).rs (mkGroup ref more lastStop).rb (mkGroup ref more lastStop).os
+        (mkGroup ref more lastStop).ob ref more).get ((mkGroup ref more lastStop).bytes ++ rest) i
+      = some ⟨((ref :: more).getD i ref).firstOrd, ((ref :: more).getD i ref).start,
+              startAt more lastStop i⟩ :=
+  group_get_tail _ _ _ _ ref more lastStop (mkGroup_fits ref more lastStop h) rest i hi
+
+example : (findBestSlope (rangeEls ⟨7, 1000, 1090⟩ [⟨16, 1090, 1200⟩, ⟨27, 1200, 1310⟩] 1310)).1 = 100 ∧
+    (findBestSlope (ordEls ⟨7, 1000, 1090⟩ [⟨16, 1090, 1200⟩, ⟨27, 1200, 1310⟩])).1 = 10 ∧
+    maxDeviation 100 (rangeEls ⟨7, 1000, 1090⟩ [⟨16, 1090, 1200⟩, ⟨27, 1200, 1310⟩] 1310) = 10 := by decide
+
+/-! ## round 2: every stream parameter at once -/
+
+/-- `StreamerBuilder::into_stream` with lower bound, upper bound, limit AND automaton set, for every
+automaton with sound `can_match` (and, when it declares `will_always_match` at its start state,
+really accepting everything): the streamed keys/values are a prefix of `search A m lo hi`; they are
+all of it when there is no limit or the automaton does not always match (the limit is then
+ignored by the code); with a limit `l` at least `min l |search|` entries come out. The call fails
+only on the always-match path, without the inverted-range guard, and then the result is empty. -/
+theorem C15_stream_all_parameters {σ V} (A : Automaton σ) (hA : A.CanMatchSound) (wam : Bool)
+    (hwam : wam = true → ∀ k, A.accepts k = true) (blockLen : Nat) (m : Assoc V) (hs : SortedMap m)
+    (lo hi : Bound) (limit : Option Nat) :
+    match (build blockLen m).searchLim A wam lo hi limit with
+    | some out =>
+        out.map (fun p => (p.2.1, p.2.2)) <+: search A m lo hi ∧
+        ((limit = none ∨ wam = false) → out.map (fun p => (p.2.1, p.2.2)) = search A m lo hi) ∧
+        (∀ l, limit = some l → min l (search A m lo hi).length ≤ out.length)
+    | none => wam = true ∧ Gen.RANGE_INVERTED_GUARD ≠ 1 ∧ search A m lo hi = [] := by
+  cases hw : wam with
+  | false =>
+    have hsl : (build blockLen m).searchLim A false lo hi limit = some ((build blockLen m).search A lo hi) := by
+      unfold Dict.searchLim; simp
+    rw [hsl]
+    have heq := (C15_automaton_stream A hA blockLen m hs lo hi).1
+    simp only
+    refine ⟨by rw [heq]; exact List.prefix_refl _, fun _ => heq, fun l _ => ?_⟩
+    rw [← heq, List.length_map]; omega
+  | true =>
+    have hacc := hwam hw
+    rw [searchLim_wam _ A hacc, search_all_eq_range A hacc]
+    have h := C15_ops_refine_range blockLen m hs lo hi limit
+    cases hst : (build blockLen m).stream lo hi limit with
+    | none =>
+      rw [hst] at h
+      exact ⟨rfl, h.1, h.2.1⟩
+    | some out =>
+      rw [hst] at h
+      obtain ⟨_, hpre, hlim⟩ := h
+      simp only
+      refine ⟨hpre, ?_, ?_⟩
+      · intro hor
+        rcases hor with hn | hf
+        · subst hn; exact hlim
+        · cases hf
+      · intro l hl
+        subst hl
+        simpa using hlim
+
+example : (build 0 [(([1] : Key), 10), ([2], 20), ([3], 30)]).searchLim (prefixAutomaton [3]) false .unbounded .unbounded (some 1)
+    = some [(0, [3], 30)] := by decide +kernel
 
 /-! ## insertion order (DESIGN §8, F6) -/
 
